@@ -352,6 +352,8 @@ package webserver
 //@   props C19 C12
 //@   requires nonnil: w != nil && r != nil
 //@   modifies *
+//@   -- (where filepath.Separator is '/', the second half of the "bad character" test repeats the first: that edge is dead)
+//@   unreachable ret6
 //@   -- C19: the only file operation is a Remove through the os.Root of the recordings directory, of a path made of the (validated)
 //@   -- group and the cleaned, slash-free file name: it cannot leave the group's own recording directory
 //@   assert at call OpenRoot recordings-dir: arg_name == diskwriter.Directory
